@@ -6,6 +6,7 @@
   c11 legacy <exprhex> <enabled>                → legacy evaluator (pinned tree), for the witness replay
 -/
 import YangVerif.Model.IfFeature
+import YangVerif.Model.CaseIndex
 import YangVerif.Model.Util
 namespace YangVerif.Drv.C11
 open YangVerif YangVerif.IfFeature
@@ -45,6 +46,26 @@ def showR : Option Bool → String
   | some false => "0"
   | none => "err"
 
+/-- `caseindex <ncases> (name implied nnodes (name on)*)*`: names are plain identifiers -/
+def pNodes : Nat → List String → Option (List CaseIndex.CNode × List String)
+  | 0, r => some ([], r)
+  | n + 1, nm :: on :: r => match pNodes n r with
+    | some (xs, r') => some (⟨nm, on == "1"⟩ :: xs, r')
+    | none => none
+  | _, _ => none
+
+def pCases : Nat → Nat → List String → Option (List CaseIndex.Case × List String)
+  | 0, _, _ => none
+  | _, 0, r => some ([], r)
+  | f + 1, n + 1, nm :: imp :: k :: r => match k.toNat? with
+    | some k => match pNodes k r with
+      | some (nodes, r1) => match pCases f n r1 with
+        | some (cs, r2) => some (⟨nm, imp == "1", nodes⟩ :: cs, r2)
+        | none => none
+      | none => none
+    | none => none
+  | _, _, _ => none
+
 def handle (toks : List String) : String :=
   match toks with
   | ["eval", h, en] =>
@@ -56,6 +77,13 @@ def handle (toks : List String) : String :=
         | some o => showR (some (o.sem env))
         | none => "err"
       s!"{showR (evaluate env toks)} {spec}"
+    | none => "bad-op"
+  | "caseindex" :: n :: rest =>
+    match n.toNat? with
+    | some n => match pCases (toks.length + 1) n rest with
+      | some (cs, []) =>
+        s!"cases {",".intercalate ((CaseIndex.enterChoice cs).map (·.name))} index {",".intercalate (CaseIndex.holderIndex cs)}"
+      | _ => "bad-op"
     | none => "bad-op"
   | ["legacy", h, en] =>
     match unhexStr h with
